@@ -10,7 +10,7 @@ ids="$@"
 one() {
   id=$1; p=${id%-*}; n=${id#*-}
   extra=""
-  case $id in C01-2) extra="--checks C01,C10";; C07-1) extra="--checks C07,C01,C10";; C07-2) extra="--checks C07,C05";; C12-4) extra="--checks C12,C03";; C04-5) extra="--checks C04,C18";; C01-6) extra="--checks C01,C06";; C12-7) extra="--checks C12,C04";; C12-8) extra="--checks C12,C05";; C17-8) extra="--checks C17,C16";; esac
+  case $id in C01-2) extra="--checks C01,C10";; C07-1) extra="--checks C07,C01,C10";; C07-2) extra="--checks C07,C05";; C12-4) extra="--checks C12,C03";; C04-5) extra="--checks C04,C18";; C01-6) extra="--checks C01,C06";; C12-7) extra="--checks C12,C04";; C12-8) extra="--checks C12,C05";; C17-8) extra="--checks C17,C16";; C02-9) extra="--checks C02,C18";; esac
   python3 tools/seedeval.py $p $n --from-seeded $extra 2>&1 | grep '^{"property"' | cut -c1-200 | sed "s/^/$id /"
 }
 export -f one
